@@ -441,11 +441,17 @@ impl Family for C13 {
                         4 => rng.range(1 << 20, (1u64 << 32) - 1),
                         // far out of range: 2^k + small (a position whose high bits must not be
                         // lost in any internal byte-offset arithmetic), 2^63-1, 2^64-1. The
-                        // zero-extended reader accepts any position; it is kept below 2^62 so
-                        // that the cursor arithmetic of the model cannot overflow either.
+                        // zero-extended reader accepts any position: 2^k + small, around 2^63 and
+                        // up to 2^64 - 1200, so that the at most 40 reads that may follow cannot
+                        // overflow the cursor (of the reader under test or of the model).
                         5 | 6 => {
                             if kind == MemKind::ReaderInf {
-                                (1u64 << rng.range(32, 61)) + rng.range(0, len_est + 1)
+                                match rng.below(4) {
+                                    0 => (1u64 << 63) - rng.below(3),
+                                    1 => (1u64 << 63) + rng.range(0, 1000),
+                                    2 => u64::MAX - 200 - rng.below(1000),
+                                    _ => (1u64 << rng.range(32, 62)) + rng.range(0, len_est + 1),
+                                }
                             } else {
                                 match rng.below(4) {
                                     0 => u64::MAX - rng.below(2),
